@@ -34,31 +34,17 @@ uint16_t Memory::read16(uint32_t a) { return endian == 0 ? (read8(a) | (read8(a 
 uint32_t Memory::read32(uint32_t a) { return endian == 0 ? (read8(a) | (read8(a + 1) << 8) | (read8(a + 2) << 16) | (read8(a + 3) << 24)) : ((read8(a) << 24) | (read8(a + 1) << 16) | (read8(a + 2) << 8) | read8(a + 3)); }
 int Memory::read_debug(uint32_t a) { return nondet_int(); }
 
-#ifdef STRINGS_ABSTRACT
+#if defined(STRINGS_HASH) && !defined(VERIF_CBMC)
+/* native replay of the text-hash form: the real libc formats the text and the two texts are compared */
+unsigned g_text_hash;
+#elif defined(STRINGS_ABSTRACT)
 /* string-abstract variant: the text is not modelled at all (every formatting call is a no-op that
    leaves an empty string), only length / locality / table-index obligations are decided */
 extern "C" char *strcat(char *d, const char *s) { return d; }
 extern "C" char *strcpy(char *d, const char *s) { d[0] = 0; return d; }
 #ifdef STRINGS_HASH
-/* the text is represented by a hash of what determines it: the sequence of format strings and their integer
-   arguments (%s arguments are themselves results of earlier formatting calls, already in the hash) */
-#include <stdarg.h>
-extern "C" { unsigned g_text_hash; }
-static void vh_fmt(const char *f, va_list ap)
-{
-  for (int i = 0; i < 40 && f[i] != 0; i++)
-  {
-    g_text_hash = g_text_hash * 31u + (unsigned char)f[i];
-    if (f[i] != '%') continue;
-    int j = i + 1;
-    while (j < 40 && ((f[j] >= '0' && f[j] <= '9') || f[j] == 'l' || f[j] == '-')) j++;
-    if (f[j] == 's') { (void)va_arg(ap, char *); }
-    else if (f[j] == 'd' || f[j] == 'x' || f[j] == 'X' || f[j] == 'o' || f[j] == 'c' || f[j] == 'u') { g_text_hash = g_text_hash * 31u + (unsigned)va_arg(ap, int); }
-    i = j;
-  }
-}
-extern "C" int snprintf(char *d, size_t n, const char *f, ...) { va_list ap; va_start(ap, f); vh_fmt(f, ap); va_end(ap); d[0] = 0; return 0; }
-extern "C" int sprintf(char *d, const char *f, ...) { va_list ap; va_start(ap, f); vh_fmt(f, ap); va_end(ap); d[0] = 0; return 0; }
+/* snprintf/sprintf come from contracts/common/st_hash.c: the text is represented by a hash of the format strings and their integer arguments */
+extern "C" { extern unsigned g_text_hash; }
 #else
 extern "C" int snprintf(char *d, size_t n, const char *f, ...) { d[0] = 0; return 0; }
 extern "C" int sprintf(char *d, const char *f, ...) { d[0] = 0; return 0; }
@@ -124,7 +110,12 @@ extern "C" void h_dis()
   int count2 = DISFN(&m, address, instruction2, sizeof(instruction2), flags, &cmin2, &cmax2);
   OBL(count2 == count, "C08.dis: length does not depend on any byte after the instruction");
 #ifdef STRINGS_HASH
+#ifdef VERIF_CBMC
   OBL(g_text_hash == hash1, "C08.dis: text (format strings and their arguments) does not depend on any byte after the instruction");
+#else
+  printf("REPLAY-INFO: second run text='%s' count=%d\n", instruction2, count2);
+  OBL(strcmp(instruction, instruction2) == 0, "C08.dis: text (format strings and their arguments) does not depend on any byte after the instruction");
+#endif
 #endif
 #endif
   CANARY("h_dis end");
